@@ -98,6 +98,17 @@ Theorem C08_lzx_call_resumable : forall L s i a b s1 i1 st2 s2 i2 stc sc ic,
   stc = st2 /\ ic = i2 /\ (stc = 0 -> sc = s2).
 Proof. exact LzxResume.lzx_call_resumable. Qed.
 Print Assumptions C08_lzx_call_resumable.
+(* exactly the two calls chmd_extract makes for a member of the compressed section while it keeps its decoder (Model/Chm.v extract:
+   lzx_call skip with the output discarded, then lzx_call length): status, bytes and final decoder state are those of ONE call for
+   skip + length bytes, of whose output the member is the tail - whatever was extracted before with this decoder *)
+Theorem C08_chm_skip_then_extract : forall L lz inp skip ln lz1 inp1 e2 lz2 inp2 ec lzc inpc,
+  LzxSafe.Core L lz -> Lzx.err lz = 0 -> LzxSafe.Dd lz + (skip + ln) < 70368744177664 ->
+  Lzx.lzx_call L lz inp skip = (0, lz1, inp1) ->
+  Lzx.lzx_call L lz1 (LzxResume.clr inp1) ln = (e2, lz2, inp2) -> e2 <> 99 ->
+  Lzx.lzx_call L lz inp (skip + ln) = (ec, lzc, inpc) -> ec <> 99 ->
+  ec = e2 /\ irest inpc = irest inp2 /\ iout inpc = iout inp2 ++ iout inp1 /\ (ec = 0 -> lzc = lz2).
+Proof. exact LzxResume.lzx_skip_then_extract. Qed.
+Print Assumptions C08_chm_skip_then_extract.
 Theorem C08_lzx_invariant_kept : forall L wb ri delta ref, 15 <= wb <= 25 ->
   LzxSafe.InvL L (Lzx.lzx_init wb ri delta ref) /\
   forall s i n st s' i', LzxSafe.InvL L s -> LzxSafe.Dd s + n < 70368744177664 -> Lzx.lzx_call L s i n = (st, s', i') -> LzxSafe.InvL L s'.
